@@ -188,6 +188,92 @@ static long kv(const char* line, const char* key, long dflt)
   return p ? strtol(p + strlen(pat), 0, 10) : dflt;
 }
 
+static long kv(const char* line, const char* key, long dflt);
+
+// ---- all arities of Call.hpp / Future.hpp (request `arity`): every start() overload of Future<A> and Future<void> (free functions
+// with 0..5 arguments, member functions with 0..4) is run once on the real pool under the scheduler; the caller's variables are
+// overwritten right after start() returns (argument capture is BY VALUE: the call must see the values as they were at start()), the
+// result conversion must give the function's return value for the captured values.  Tie only (the model's record has two values).
+static int g_voidOut[12];
+static int mix(int a, int b, int c, int d, int e) { return a + 10 * b + 100 * c + 1000 * d + 10000 * e; }
+static Res rf0() { return Res(mix(0, 0, 0, 0, 0) + 7); }
+static Res rf1(const Tok& a) { return Res(mix(a.v, 0, 0, 0, 0)); }
+static Res rf2(const Tok& a, int b) { return Res(mix(a.v, b, 0, 0, 0)); }
+static Res rf3(int a, int b, int c) { return Res(mix(a, b, c, 0, 0)); }
+static Res rf4(int a, int b, int c, int d) { return Res(mix(a, b, c, d, 0)); }
+static Res rf5(int a, int b, int c, int d, int e) { return Res(mix(a, b, c, d, e)); }
+static void vf0() { g_voidOut[0] = 7; }
+static void vf1(int a) { g_voidOut[1] = mix(a, 0, 0, 0, 0); }
+static void vf2(int a, int b) { g_voidOut[2] = mix(a, b, 0, 0, 0); }
+static void vf3(int a, int b, int c) { g_voidOut[3] = mix(a, b, c, 0, 0); }
+static void vf4(int a, int b, int c, int d) { g_voidOut[4] = mix(a, b, c, d, 0); }
+static void vf5(int a, int b, int c, int d, int e) { g_voidOut[5] = mix(a, b, c, d, e); }
+struct Obj
+{
+  int base;
+  Res m0() { return Res(base); }
+  Res m1(int a) { return Res(base + mix(a, 0, 0, 0, 0)); }
+  Res m2(int a, int b) { return Res(base + mix(a, b, 0, 0, 0)); }
+  Res m3(int a, int b, int c) { return Res(base + mix(a, b, c, 0, 0)); }
+  Res m4(int a, int b, int c, int d) { return Res(base + mix(a, b, c, d, 0)); }
+  void w0() { g_voidOut[6] = base; }
+  void w1(int a) { g_voidOut[7] = base + mix(a, 0, 0, 0, 0); }
+  void w2(int a, int b) { g_voidOut[8] = base + mix(a, b, 0, 0, 0); }
+  void w3(int a, int b, int c) { g_voidOut[9] = base + mix(a, b, c, 0, 0); }
+  void w4(int a, int b, int c, int d) { g_voidOut[10] = base + mix(a, b, c, d, 0); }
+};
+static int g_arityOk = 0;
+static void arityCheck(const char* what, int got, int exp)
+{
+  if(got == exp) { ++g_arityOk; printf("E 0 arity %s ok %d\n", what, got); } else printf("X arity-wrong-value %s got=%d expected=%d\n", what, got, exp);
+}
+static int runArity(char* line)
+{
+  sched_set_devs(0, 0, 0); sched_set_create_failures(0);
+  sched_reset(1, strstr(line, " pol=rand") ? 1 : 0, 0, 0, 200000, 0, 0, 0);
+  sched_seed_only((unsigned long long)kv(line, "seed", 1));
+  printf("P 0\nH 0\n");
+  g_pool = new Pool(0, 3, (usize)kv(line, "q", 2)); g_poolAlive = true; FP::_threadPool = g_pool;
+  {
+    int a = 1, b = 2, c = 3, d = 4, e = 5; Tok t(6);
+#define CLOBBER() (a = b = c = d = e = 9, t.v = 9)
+#define RESET() (a = 1, b = 2, c = 3, d = 4, e = 5, t.v = 6)
+    Future<Res> f; Obj o; o.base = 500000;
+    f.start(rf0); CLOBBER(); arityCheck("A.Args0", ((const Res&)f).v, 7); RESET();
+    f.start(rf1, t); CLOBBER(); arityCheck("A.Args1", ((const Res&)f).v, mix(6, 0, 0, 0, 0)); RESET();
+    f.start(rf2, t, b); CLOBBER(); arityCheck("A.Args2", ((const Res&)f).v, mix(6, 2, 0, 0, 0)); RESET();
+    f.start(rf3, a, b, c); CLOBBER(); arityCheck("A.Args3", ((const Res&)f).v, mix(1, 2, 3, 0, 0)); RESET();
+    f.start(rf4, a, b, c, d); CLOBBER(); arityCheck("A.Args4", ((const Res&)f).v, mix(1, 2, 3, 4, 0)); RESET();
+    f.start(rf5, a, b, c, d, e); CLOBBER(); arityCheck("A.Args5", ((const Res&)f).v, mix(1, 2, 3, 4, 5)); RESET();
+    f.start(o, &Obj::m0); CLOBBER(); arityCheck("A.Member.Args0", ((const Res&)f).v, 500000); RESET();
+    f.start(o, &Obj::m1, a); CLOBBER(); arityCheck("A.Member.Args1", ((const Res&)f).v, 500000 + mix(1, 0, 0, 0, 0)); RESET();
+    f.start(o, &Obj::m2, a, b); CLOBBER(); arityCheck("A.Member.Args2", ((const Res&)f).v, 500000 + mix(1, 2, 0, 0, 0)); RESET();
+    f.start(o, &Obj::m3, a, b, c); CLOBBER(); arityCheck("A.Member.Args3", ((const Res&)f).v, 500000 + mix(1, 2, 3, 0, 0)); RESET();
+    f.start(o, &Obj::m4, a, b, c, d); CLOBBER(); arityCheck("A.Member.Args4", ((const Res&)f).v, 500000 + mix(1, 2, 3, 4, 0)); RESET();
+    arityCheck("A.flags-after-conversion", (int)f.isFinished() * 2 + (int)f.isAborted() + (int)f.isAborting() * 4, 2);
+    Future<void> g;
+    g.start(vf0); CLOBBER(); g.join(); arityCheck("void.Args0", g_voidOut[0], 7); RESET();
+    g.start(vf1, a); CLOBBER(); g.join(); arityCheck("void.Args1", g_voidOut[1], mix(1, 0, 0, 0, 0)); RESET();
+    g.start(vf2, a, b); CLOBBER(); g.join(); arityCheck("void.Args2", g_voidOut[2], mix(1, 2, 0, 0, 0)); RESET();
+    g.start(vf3, a, b, c); CLOBBER(); g.join(); arityCheck("void.Args3", g_voidOut[3], mix(1, 2, 3, 0, 0)); RESET();
+    g.start(vf4, a, b, c, d); CLOBBER(); g.join(); arityCheck("void.Args4", g_voidOut[4], mix(1, 2, 3, 4, 0)); RESET();
+    g.start(vf5, a, b, c, d, e); CLOBBER(); g.join(); arityCheck("void.Args5", g_voidOut[5], mix(1, 2, 3, 4, 5)); RESET();
+    g.start(o, &Obj::w0); CLOBBER(); g.join(); arityCheck("void.Member.Args0", g_voidOut[6], 500000); RESET();
+    g.start(o, &Obj::w1, a); CLOBBER(); g.join(); arityCheck("void.Member.Args1", g_voidOut[7], 500000 + mix(1, 0, 0, 0, 0)); RESET();
+    g.start(o, &Obj::w2, a, b); CLOBBER(); g.join(); arityCheck("void.Member.Args2", g_voidOut[8], 500000 + mix(1, 2, 0, 0, 0)); RESET();
+    g.start(o, &Obj::w3, a, b, c); CLOBBER(); g.join(); arityCheck("void.Member.Args3", g_voidOut[9], 500000 + mix(1, 2, 3, 0, 0)); RESET();
+    g.start(o, &Obj::w4, a, b, c, d); CLOBBER(); g.join(); arityCheck("void.Member.Args4", g_voidOut[10], 500000 + mix(1, 2, 3, 4, 0)); RESET();
+    g.abort(); arityCheck("void.isAborting-after-abort", (int)g.isAborting(), 1);
+    g.start(vf0); arityCheck("void.isAborting-cleared-by-start", (int)g.isAborting(), 0); g.abort(); g.join();
+    arityCheck("void.flags-after-join", (int)(g.isFinished() || g.isAborted()) + 2 * (int)(g.isFinished() && g.isAborted()), 1);
+  }
+  printf("E 0 arity-total %d live=%d\n", g_arityOk, g_liveToks);
+  Pool* p = curPool(); delete p; g_poolAlive = false; FP::_threadPool = 0; g_pool = 0;
+  printf("E 0 pool-deleted\n");
+  sched_main_done();
+  return 0;
+}
+
 static int runScenario(char* line)
 {
   // split off the client scripts
@@ -253,10 +339,11 @@ int main()
   setvbuf(stdout, 0, _IOFBF, 1 << 16);
   while(fgets(line, sizeof(line), stdin))
   {
-    if(strncmp(line, "run ", 4) != 0) { if(line[0] != '\n') { printf("bad-request\nend 2\n"); fflush(stdout); } continue; }
+    bool arity = strncmp(line, "arity ", 6) == 0;
+    if(strncmp(line, "run ", 4) != 0 && !arity) { if(line[0] != '\n') { printf("bad-request\nend 2\n"); fflush(stdout); } continue; }
     fflush(stdout);
     pid_t c = fork();
-    if(c == 0) { alarm(30); int r = runScenario(line + 3); printf("bad-scenario\n"); fflush(stdout); nv_leave(r ? r : 3); }
+    if(c == 0) { alarm(30); int r = arity ? runArity(line + 5) : runScenario(line + 3); printf("bad-scenario\n"); fflush(stdout); nv_leave(r ? r : 3); }
     int st = 0; waitpid(c, &st, 0);
     if(WIFEXITED(st)) printf("end %d\n", WEXITSTATUS(st)); else printf("end signal %d\n", WIFSIGNALED(st) ? WTERMSIG(st) : -1);
     fflush(stdout);
